@@ -254,6 +254,10 @@ nni_dialer_init(nni_dialer *d, nni_sock *s, nni_sp_tran *tran)
 		nni_mtx_lock(&dialers_lk);
 		rv = nni_id_alloc32(&dialers, &d->d_id, d);
 		nni_mtx_unlock(&dialers_lk);
+		if (rv != 0) {
+			// do not leave it on the socket's list
+			nni_sock_remove_dialer(d);
+		}
 	}
 
 	if (rv == 0) {
